@@ -93,6 +93,8 @@ Definition psd_ev_run (skip : bool) (st : psd_st) (e : psd_ev) : psd_st :=
 Definition psd_run (skip : bool) (evs : list psd_ev) (st : psd_st) : psd_st := fold_left (psd_ev_run skip) evs st.
 
 Definition psd_src_skip : bool := match f_ps_dump_unconditional with Some false => true | _ => false end.
+(* OnShutdown() calls DumpProgramState() as a top-level statement with no return / if in front (unrecognised shape: tolerated) *)
+Definition psd_src_shutdown_dumps : bool := match f_ps_shutdown_dumps with Some false => false | _ => true end.
 
 (* a previous complete dump (version 0) on disk, nobody dumping *)
 Definition psd_idle : psd_thr := {| pdt_pc := 0; pdt_live := false; pdt_threw := false |}.
@@ -111,6 +113,11 @@ Definition psd_sched_parked : list psd_ev :=
 Definition psd_sched_late : list psd_ev :=
   [PsdChange; PsdStart PsdShut; PsdStep PsdShut; PsdStep PsdShut; PsdStart PsdTimer; PsdStep PsdTimer; PsdStep PsdTimer;
    PsdStep PsdShut; PsdStep PsdShut] ++ repeat (PsdStep PsdShut) 4.
+(* the same attempt when DumpProgramState is serialised by a blocking lock (fact f_ps_dump_serialised): the periodic dump
+   waits in front of its clean-up until the final dump has returned *)
+Definition psd_sched_late_serial : list psd_ev :=
+  [PsdChange; PsdStart PsdShut] ++ repeat (PsdStep PsdShut) 8 ++ [PsdStart PsdTimer; PsdStep PsdTimer; PsdStep PsdTimer].
+Definition psd_src_serial : bool := match f_ps_dump_serialised with Some true => true | _ => false end.
 (* free: no periodic dump around *)
 Definition psd_sched_free : list psd_ev := [PsdChange; PsdStart PsdShut] ++ repeat (PsdStep PsdShut) 8.
 (* what the tie observes when the shutdown dump has returned: did it throw; do the files lack the change (version 1) *)
